@@ -53,7 +53,7 @@ def div_or(num, den, default):
 
 def obligations(ops, outs):
     _, _, name, periods, mult = ops[0]
-    fo = rfam.feeds(ops, outs, 'a')
+    fo = rfam.lineage_feeds(ops, outs, 'c' if any(op[0] == 'clone' for op in ops) else 'a')
     stream = [v for v, _ in fo]
     bars = isinstance(stream[0], (tuple, list))
     obs = []
@@ -116,7 +116,7 @@ def obligations(ops, outs):
     return obs
 
 
-def r_family(mir, name, mode, spec, t, seed, timeout_s, required=True):
+def r_family(mir, name, mode, spec, t, seed, timeout_s, required=True, reset_prefix=0, clone_at=None):
     """spec: list of periods, each an int or 'p' (symbolic integer: every period at once)"""
     d = IND[name]
     ps, passume = [], []
@@ -131,9 +131,18 @@ def r_family(mir, name, mode, spec, t, seed, timeout_s, required=True):
     ex = Executor(mir, assumptions=passume)
     stream = rcore.reals('x', t) if mode == 'scalar' else rcore.bar_vars('b', t)
     ops = rfam.ops_stream(name, ps, None, stream)
+    extra_assume = []
+    if reset_prefix and name != 'SLOW_STOCH':
+        pre = rfam.make_stream(mode, reset_prefix, 'h')
+        extra_assume = rfam.stream_assumptions(pre, 'validbar' if mode == 'bar' else 'positive')
+        ops = rfam.with_reset_prefix(ops, pre)
+        fam += ' after %d inputs and a reset' % reset_prefix
+    if clone_at is not None and name != 'SLOW_STOCH':
+        ops = rfam.with_clone_at(ops, clone_at)
+        fam += ' continued on a clone taken after %d inputs' % clone_at
     if name == 'SLOW_STOCH':          # compositional: a FastStochastic instance (real code) fed the same inputs
         ops = [ops[0], ('new', 'f', 'FAST_STOCH', (ps[0],), None)] + [o for v in stream for o in (('feed', 'a', v), ('feed', 'f', v))]
-    assume = list(passume) + rcore.bounds(rfam.ops_vars(ops))
+    assume = list(passume) + rcore.bounds(rfam.ops_vars(ops)) + extra_assume
     if mode == 'scalar': assume += [x > 0 for x in stream]
     else:
         for b in stream: assume += rcore.valid_bar(b)
@@ -181,6 +190,13 @@ def main(chk):
         J('SLOW_STOCH', 'scalar', [n, 'p'], tf(n)); J('SLOW_STOCH', 'bar', [n, 'p'], tf(n))
     for spec in ([1, 1, 1], [1, 2, 3], [2, 1, 1], [3, 2, 2], [2, 4, 3]) + (() if q else ([5, 3, 4], [12, 26, 9])):
         J('PPO', 'scalar', list(spec), 7 if q else 10)
+    # life-cycle variants: the same formulas after a history and a reset, and on a clone taken mid-stream
+    for n in ns[:2]:
+        for name, mode in (('FAST_STOCH', 'scalar'), ('ROC', 'scalar'), ('ER', 'scalar'), ('CCI', 'bar'), ('MFI', 'bar')):
+            J(name, mode, [n], tf(n), reset_prefix=n + 2); J(name, mode, [n], tf(n), clone_at=n + 1)
+    J('RSI', 'scalar', [3], 7, reset_prefix=3); J('RSI', 'scalar', [2], 6, clone_at=3); J('RSI', 'scalar', [3], 7, clone_at=2)
+    J('OBV', 'bar', [], 6, reset_prefix=3); J('OBV', 'bar', [], 6, clone_at=3)
+    J('PPO', 'scalar', [2, 4, 3], 6, reset_prefix=3); J('PPO', 'scalar', [2, 4, 3], 6, clone_at=3)
     if not q:      # ceilings: symbolic EMA periods inside ratio oscillators (hard NRA; not required)
         J('PPO', 'scalar', ['p', 'p', 'p'], 6, required=False)
     cnt, problems = rfam.validate_translator(mir, [('RSI', [3], None), ('FAST_STOCH', [3], None), ('SLOW_STOCH', [3, 2], None), ('ROC', [3], None),
